@@ -29,3 +29,10 @@ Lemma nested_collision_status_information :
                  | Some x => x | None => (Err NonImplemented, Err NonImplemented) end) = Ok (v, [])
             /\ field_of "zvt::packets::StatusInformation" v 4 = Some (VSome (VInt 123)).
 Proof. eexists. split; vm_compute; reflexivity. Qed.
+
+(* the open finding of C02 (the same remainder rule): a binary integer announced wider than its field — 1A 03 01 00 00 into the
+   big-endian u16 of the registration container — is read from its first bytes, the rest handed back; the property wants an error *)
+Lemma wide_integer_witness :
+  fst (match run_dec "zvt::packets::tlv::Registration" [26; 3; 1; 0; 0] with
+       | Some x => x | None => (Err NonImplemented, Err NonImplemented) end) = Ok (VRec [VSome (VInt 256)], [0]).
+Proof. vm_compute. reflexivity. Qed.
